@@ -563,6 +563,7 @@ func (e Engine) runOnce(t *testing.T, ctx *kit.Ctx, sc *kit.Scenario[Config, Op]
 					table.Rib.RemoveRouteEnc(mkName(o.Name), o.Face, o.Origin)
 					inRib[ti], ribYielded[ti] = false, false
 				case "teardown":
+					ctx.Fault("face-teardown")
 					inRib[ti] = true
 					face.FaceTable.Remove(o.Face)
 					inRib[ti], ribYielded[ti] = false, false
@@ -650,6 +651,9 @@ func (e Engine) runOnce(t *testing.T, ctx *kit.Ctx, sc *kit.Scenario[Config, Op]
 		} else {
 			pick = cand[rr%len(cand)]
 			rr++
+		}
+		if pick != s.cur {
+			ctx.Fault("preemption-at-yield-point")
 		}
 		s.cur = pick
 		s.counter++
